@@ -146,7 +146,7 @@ Qed.
 
 Lemma lay_stmt_named names s : stmt_named names s.
 Proof.
-  induction s as [ce body IH | fid body IH | s Hs] using stmt_ind2; intros inrep st st' d H Hn HL.
+  induction s as [ce body IH | own fid body IH | s Hs] using stmt_ind2; intros inrep st st' d H Hn HL.
   - rewrite lay_stmt_repeat in H. xinv H. eapply iter_named; [exact IH| |exact H|exact HL].
     intros m Hm. apply Hn. simpl. rewrite lnames_nested. exact Hm.
   - destruct inrep; [discriminate|]. rewrite lay_stmt_include in H. xinv H. destruct a as [s1 d1]. simpl in H. inversion H; subst. simpl.
@@ -285,9 +285,9 @@ Proof. unfold irel. auto 10. Qed.
 
 Lemma plainf_quiet names s : plainf names s = true ->
   lnames_stmt s = [] /\ file_ids_stmt s = [] /\
-  match s with Label _ | LocalLabel _ | Assign _ _ | Link _ | Skip _ | Include _ _ | Extern _ | ExternAll | End => False | _ => True end.
+  match s with Label _ | LocalLabel _ | Assign _ _ | Link _ | Skip _ | Include _ _ _ | Extern _ | ExternAll | End => False | _ => True end.
 Proof.
-  induction s as [ce body IH | fid body IH | s Hs] using stmt_ind2; intros Hp.
+  induction s as [ce body IH | own fid body IH | s Hs] using stmt_ind2; intros Hp.
   - rewrite plainf_repeat in Hp. apply andb_true_iff in Hp. destruct Hp as [_ Hp]. simpl.
     split; [|split; [|exact I]].
     + induction IH as [|x r Hx _ IHr]; simpl in *; [reflexivity|]. apply andb_true_iff in Hp. destruct Hp as [H1 H2].
@@ -398,7 +398,7 @@ End Plain.
 (* ---- inert statements: invisible to every collector ------------------------------------------- *)
 Definition quiet (s : stmt) : Prop :=
   lnames_stmt s = [] /\ file_ids_stmt s = [] /\
-  match s with Label _ | LocalLabel _ | Assign _ _ | Link _ | Skip _ | Include _ _ | Extern _ | ExternAll | End => False | _ => True end.
+  match s with Label _ | LocalLabel _ | Assign _ _ | Link _ | Skip _ | Include _ _ _ | Extern _ | ExternAll | End => False | _ => True end.
 
 Lemma quiet_facts s : quiet s ->
   (forall f sc, defs_stmt f sc s = []) /\ (forall f sc, keys_stmt f sc s = []) /\ (forall f, exports_stmt f s = ([], [])).
@@ -429,12 +429,12 @@ Proof.
   - simpl. destruct x; simpl; rewrite ?IH; reflexivity.
 Qed.
 
-Lemma first_base_quiet X : Forall quiet X -> forall l1 l2, first_base (l1 ++ X ++ l2) = first_base (l1 ++ l2).
+Lemma first_base_quiet X : Forall quiet X -> forall f l1 l2, first_base f (l1 ++ X ++ l2) = first_base f (l1 ++ l2).
 Proof.
-  intros HX. induction l1 as [|x r IH]; intros l2.
+  intros HX f. induction l1 as [|x r IH]; intros l2.
   - simpl. induction HX as [|y Y Hy _ IHY]; [reflexivity|].
-    destruct Hy as [_ [_ Hy]]. simpl. destruct y; try contradiction; simpl; exact IHY.
-  - simpl. destruct x; simpl; rewrite ?IH; reflexivity.
+    destruct Hy as [_ [_ Hy]]. cbn [app first_base]. destruct y; try contradiction; simpl; exact IHY.
+  - cbn [app first_base]. rewrite IH. reflexivity.
 Qed.
 
 Lemma file_ids_quiet X : Forall quiet X -> forall l1 l2, file_ids (l1 ++ X ++ l2) = file_ids (l1 ++ l2).
@@ -494,7 +494,7 @@ Qed.
 
 Lemma keys_stmt_named s : stmt_keys_named s.
 Proof.
-  induction s as [ce body IH | fid body IH | s Hs] using stmt_ind2; intros f sc f' k n Hm.
+  induction s as [ce body IH | own fid body IH | s Hs] using stmt_ind2; intros f sc f' k n Hm.
   - discriminate.
   - cbn [keys_stmt] in Hm. rewrite keys_go_eq in Hm. simpl. rewrite lnames_nested.
     eapply collect_keys_named_list; eauto.
